@@ -229,6 +229,9 @@ class Emitter(object):
             return lhs.inside(rhs) if k == "in" else lhs.not_inside(rhs)
         if k == "ps":
             return self.nav(e[1])[e[2]:e[3]]
+        if k == "psit":
+            # written through the list and the index (the iterator variable of a scalar list has no part-select)
+            return self.nav(e[3])[self.fe[-1][1]][e[1]:e[2]]
         if k == "bs":
             return self.nav(e[1])[e[2]]
         if k == "sz":
@@ -358,6 +361,8 @@ def src_expr(e, me="self"):
         return "%s.%s(%s)" % (src_expr(e[1], me), "inside" if k == "in" else "not_inside", rhs)
     if k == "ps":
         return "%s%s[%d:%d]" % (me, _src_path(e[1]), e[2], e[3])
+    if k == "psit":
+        return "%s%s[i][%d:%d]" % (me, _src_path(e[3]), e[1], e[2])
     if k == "bs":
         return "%s%s[%d]" % (me, _src_path(e[1]), e[2])
     if k == "sz":
